@@ -8,6 +8,8 @@ import (
 	"fmt"
 	"math"
 	"math/rand"
+	"sort"
+	"strconv"
 	"time"
 
 	"github.com/unixpickle/model3d/model2d"
@@ -157,6 +159,26 @@ func fanDisc(rng *rand.Rand, n int) *model3d.Mesh {
 	return m
 }
 
+// hubDisc: an interior hub whose n neighbours are interior vertices too (a long row of the linear system),
+// inside a rim of n vertices
+func hubDisc(rng *rand.Rand, n int) *model3d.Mesh {
+	m := model3d.NewMesh()
+	c := model3d.XYZ(0.1, 0.05*rng.Float64(), 0.6)
+	inner, outer := make([]model3d.Coord3D, n), make([]model3d.Coord3D, n)
+	for i := range inner {
+		a := 2 * math.Pi * (float64(i) + 0.3*rng.Float64()) / float64(n)
+		inner[i] = model3d.XYZ(0.5*math.Cos(a), 0.5*math.Sin(a), 0.3+0.1*rng.Float64())
+		outer[i] = model3d.XYZ(1.2*math.Cos(a), 1.2*math.Sin(a), 0.1*rng.Float64())
+	}
+	for i := range inner {
+		j := (i + 1) % n
+		m.Add(&model3d.Triangle{c, inner[i], inner[j]})
+		m.Add(&model3d.Triangle{inner[i], outer[i], outer[j]})
+		m.Add(&model3d.Triangle{inner[i], outer[j], inner[j]})
+	}
+	return m
+}
+
 // symFan: one interior vertex above the centre of the square rim (1,0) (0,1) (-1,0) (0,-1)
 func symFan() *model3d.Mesh {
 	m := model3d.NewMesh()
@@ -194,7 +216,37 @@ func floaterRunX(id int, name string, disc *model3d.Mesh, weighting string, bnd 
 				}
 			}
 		default:
-			boundary = model3d.PNormBoundary(disc, 4)
+			p := 4.0
+			if len(bnd) > len("pnorm") {
+				p, _ = strconv.ParseFloat(bnd[len("pnorm"):], 64)
+			}
+			boundary = model3d.PNormBoundary(disc, p)
+			// the unit circle of the p-norm, the rim going round it once: consecutive vertices by angle
+			// are joined by a rim edge of the disc
+			type bv struct {
+				k     model3d.Coord3D
+				angle float64
+			}
+			var ring []bv
+			boundary.Range(func(k model3d.Coord3D, v model2d.Coord) bool {
+				norm := math.Pow(math.Pow(math.Abs(v.X), p)+math.Pow(math.Abs(v.Y), p), 1/p)
+				if math.IsNaN(norm) || math.Abs(norm-1) > 1e-9 {
+					rec.Boundary = false
+					rec.Note = "boundary vertex not on the unit p-circle"
+				}
+				ring = append(ring, bv{k, math.Atan2(v.Y, v.X)})
+				return true
+			})
+			sort.Slice(ring, func(i, j int) bool { return ring[i].angle < ring[j].angle })
+			for i := range ring {
+				if len(disc.Find(ring[i].k, ring[(i+1)%len(ring)].k)) != 1 {
+					rec.Boundary = false
+					rec.Note = "the rim does not go round the p-circle once in order"
+				}
+			}
+			if len(ring) < 3 {
+				rec.Boundary = false
+			}
 		}
 		var weights *model3d.EdgeMap[float64]
 		switch weighting {
@@ -668,9 +720,13 @@ func init() {
 				discs = append(discs, fanDisc(rng, n))
 				discNames = append(discNames, "fan")
 			}
+			for _, n := range []int{15, 16, 17, 24, 40} {
+				discs = append(discs, hubDisc(rng, n))
+				discNames = append(discNames, "hub")
+			}
 			for i, d := range discs {
 				for _, w := range []string{"uniform", "chord", "shape"} {
-					for _, b := range []string{"circle", "square", "pnorm"} {
+					for _, b := range []string{"circle", "square", "pnorm", []string{"pnorm1", "pnorm1.5", "pnorm3", "pnorm5", "pnorm2"}[(i+len(w))%5]} {
 						id++
 						out.write(floaterRun(id, discNames[i], d, w, b))
 					}
